@@ -28,7 +28,8 @@ Inductive err :=
 | EInvalidRefId (id : N)
 | EInvalidConstructorId (id : N) (ty : name)
 | EDeTransientCtor (ctor ty : name)
-| ESerTransientCtor (ctor ty : name).
+| ESerTransientCtor (ctor ty : name)
+| EIllTyped.   (* model only: the value does not inhabit the type (no Rust counterpart) *)
 
 Inductive pkind := POverflow | PIndex | PUnwrap | PUnreachable | PAssert | PLibrary.
 
